@@ -177,55 +177,6 @@ func (s *Schema) fieldPaths(r *hx.Rand, t RType, d *Doc, segs []string, out *[]f
 	}
 }
 
-// every object key that occurs, at any depth, in a default literal reachable from type t.  The generated populateLocalDefaultValues
-// parses a default literal with a FRESH reader (no excluded fields); the model (Codec/Decode.v lit_value) decodes it under the
-// reader's own spec.  The two differ only when a directive matches a path inside a literal (relative to the literal's root), which
-// requires the directive's first segment to be one of these keys: such specs are not generated (documented in the evidence).
-func (s *Schema) literalKeys(t RType, seen map[string]bool, out map[string]bool) {
-	switch {
-	case t.Primitive != "":
-	case t.Array != nil:
-		s.literalKeys(*t.Array, seen, out)
-	case t.Map != nil:
-		s.literalKeys(*t.Map, seen, out)
-	default:
-		n := s.Types[t.Reference.Name]
-		if seen[n.Name] {
-			return
-		}
-		seen[n.Name] = true
-		for _, inc := range n.Includes {
-			s.literalKeys(ref(inc), seen, out)
-		}
-		for _, f := range n.Fields {
-			s.literalKeys(f.Type, seen, out)
-			if f.DefaultValue != nil {
-				var raw interface{}
-				if json.Unmarshal([]byte(*f.DefaultValue), &raw) == nil {
-					var walk func(x interface{})
-					walk = func(x interface{}) {
-						switch y := x.(type) {
-						case map[string]interface{}:
-							for k, z := range y {
-								out[k] = true
-								walk(z)
-							}
-						case []interface{}:
-							for _, z := range y {
-								walk(z)
-							}
-						}
-					}
-					walk(raw)
-				}
-			}
-		}
-		for _, m := range n.Members {
-			s.literalKeys(m.Type, seen, out)
-		}
-	}
-}
-
 // the document without any member at an excluded path (what a well-behaved peer sends when those fields are read-only)
 func pruneExcluded(d *Doc, ds []string, ignore int, segs []string) *Doc {
 	c := *d
@@ -572,8 +523,6 @@ func runC06Excl(cfg *hx.Config, rep *hx.Report, sh *hx.Shards, r *hx.Rand) {
 	}
 	for _, tname := range c06Tops {
 		t := ref(tname)
-		litKeys := map[string]bool{}
-		schema.literalKeys(t, map[string]bool{}, litKeys)
 		nt := n
 		if tname == "Wide" {
 			nt = n / 2
@@ -589,7 +538,7 @@ func runC06Excl(cfg *hx.Config, rep *hx.Report, sh *hx.Shards, r *hx.Rand) {
 			schema.fieldPaths(r, t, base, nil, &fps)
 			var cands [][]string
 			for _, fp := range fps {
-				if len(fp.segs) > ignore && len(fp.segs)-ignore <= 4 && (fp.required || r.Chance(25)) && !litKeys[fp.segs[ignore]] {
+				if len(fp.segs) > ignore && len(fp.segs)-ignore <= 4 && (fp.required || r.Chance(25)) {
 					cands = append(cands, fp.segs[ignore:])
 				}
 			}
